@@ -217,6 +217,9 @@ impl Ctx {
                 cands.push(v);
             }
         }
+        if let Some(f) = &self.pivot_filter {
+            cands.retain(|c| f.contains(c));
+        }
         let snap = self.snapshot_worlds();
         for v in cands.into_iter().take(12) {
             self.pivots.push(v);
